@@ -71,6 +71,7 @@ func (m *Memberlist) encodeBroadcastNotify(node string, msgType messageType, msg
 // be invalidated by a future message about the same node
 func (m *Memberlist) queueBroadcast(node string, msg []byte, notify chan struct{}) {
 	b := &memberlistBroadcast{node, msg, notify}
+	m.vt("bcast", node, msg, notify != nil)
 	m.broadcasts.QueueBroadcast(b)
 }
 
